@@ -23,8 +23,9 @@ type messageSet []byte
 // entriesForMessageSet computes the index entries for the given message set
 // data. Since the data may originate from the network (e.g. when replicating
 // from the partition leader), every header is validated against the remaining
-// data. ErrInvalidMessageSet is returned if the data is truncated or otherwise
-// malformed.
+// data and every message is checked to be well formed since readers of the log
+// do not expect anything else. ErrInvalidMessageSet is returned if the data is
+// truncated or otherwise malformed.
 func entriesForMessageSet(basePos int64, ms []byte) ([]*entry, error) {
 	entries := []*entry{}
 	if len(ms) <= msgSetHeaderLen {
@@ -44,6 +45,9 @@ func entriesForMessageSet(basePos int64, ms []byte) ([]*entry, error) {
 			size        = m.Size()
 		)
 		if size < 0 || int64(size) > int64(len(ms)-msgSetHeaderLen) {
+			return nil, ErrInvalidMessageSet
+		}
+		if !SerializedMessage(ms[msgSetHeaderLen : msgSetHeaderLen+int(size)]).valid() {
 			return nil, ErrInvalidMessageSet
 		}
 		entries = append(entries, &entry{
